@@ -523,6 +523,17 @@ def locf_cases(draw):
             seen.add(k)
         rows.append(pk + ok + [rid[i], v])
     cols = pcols + ocols + [["rid", "int"], ["v", vkind]]
+    if draw(st.sampled_from([True, True, False])):
+        # a bystander column with its own missing cells (often in the very rows whose value is missing): the helper
+        # fills ONE column; everything else must come back untouched
+        bkind = draw(st.sampled_from(["float", "str"]))
+        bpool = {"float": VAL_FLOATS, "str": VAL_STRS}[bkind]
+        for r in rows:
+            if r[-1] is None and draw(st.sampled_from([True, True, False])):
+                r.append(None)
+            else:
+                r.append(draw(st.one_of(st.none(), st.sampled_from(bpool), st.sampled_from(bpool))))
+        cols = cols + [["w", bkind]]
     perm = draw(st.permutations(list(range(len(cols)))))
     return {
         "table": {"cols": [cols[j] for j in perm], "rows": [[r[j] for j in perm] for r in rows]},
